@@ -292,7 +292,9 @@ class SimTransport(Transport):
     def dropNode(self, node):
         self.known.discard(node.id)
         if node.id in self.connected:
+            # like TCPTransport.dropNode: the connection is closed and the disconnect is reported
             self.connected.discard(node.id)
+            self._onNodeDisconnected(TCPNode(node.id))
         OBS.append(('dropnode', node.id))
 
     def send(self, node, message):
